@@ -56,7 +56,7 @@ class NoteFilter(NoteFilterTransform):
         raise NotImplemented
 
     def __call__(self, element, on=Mask(), **kwargs):
-        query_filter = Mask.Note() > Mask.Func(lambda x, **k: self.filter(element, **k))
+        query_filter = Mask.Note() > Mask.Func(lambda x, **k: self.filter(x, **k))
         return super().__call__(element, on=query_filter & on, **kwargs)
 
 
@@ -97,7 +97,7 @@ class MelodyFilter(MelodyFilterTransform):
         raise NotImplemented
 
     def __call__(self, element, on=Mask(), **kwargs):
-        query_filter = Mask.Melody() > Mask.Func(lambda x, **k: self.filter(element, **k))
+        query_filter = Mask.Melody() > Mask.Func(lambda x, **k: self.filter(x, **k))
         return super().__call__(element, on=query_filter & on, **kwargs)
 
 
